@@ -44,6 +44,10 @@ def corpus():
         fixwire.msg("A", 2, S, T, [(98, 0), (108, 30)]),
         fixwire.msg("4", 2, S, T, [(123, "Y"), (36, 7)]),
     ]
+    # valid frames whose text is multi-byte UTF-8 (BodyLength and CheckSum over the bytes, as the wire has them): a reader that is
+    # lenient about characters vs bytes has two sums to satisfy, and a corrupted lead byte may satisfy the other one
+    c.append(fixwire.msg("D", 2, S, T, [(11, "u1"), (55, "X"), (58, "caf\u00e9 cr\u00e8me".encode("utf-8"))]))
+    c.append(fixwire.msg("B", 2, S, T, [(148, "\u0417\u0430\u044f\u0432\u043a\u0430 \u043f\u0440\u0438\u043d\u044f\u0442\u0430".encode("utf-8")), (33, 1), (58, "\u20ac 12".encode("utf-8"))]))
     # frames in which one edit of a body tag yields "10=ddd" with ddd = the checksum of everything before it: an early, self-consistent
     # trailer (only the BodyLength still says that the frame is longer)
     for tag in (11, 17, 1, 100, 19):
@@ -260,6 +264,11 @@ def grammar_cases():
         out.append((f"trunc-fields-{i}", raw(p[:i])))
     for cut in (1, 5, 6, 9, 10, 12, len(good) - 1, len(good) - 2, len(good) - 4, len(good) - 7):
         out.append((f"trunc-bytes-{cut}", good[:cut]))
+    # a long frame cut short (its BodyLength announces thousands of bytes that never come), then the peer carries on
+    big = fixwire.build(body[:-1] + [(58, "N" * 3000)])
+    for cut in (60, 200, 1000, len(big) - 8):
+        out.append((f"trunc-big-{cut}", big[:cut]))
+    out.append(("big-then-nothing-missing", big))
     # wrong BeginString
     for bs in (b"FIX.4.2", b"FIX.5.0", b"FIXT.1.1", b"FIX.4.4 ", b"FIX.", b"FIX.4.44"):
         out.append((f"beginstring={bs!r}", fixwire.build(body, beginstring=bs)))
@@ -527,6 +536,9 @@ def run_shard(spec, acc):
     rnd = random.Random(f"{spec['seed']}:C10:live:{shard}")
     cases = live_cases(rnd, spec["nlive"])
     # directed probes so that every listed finding is reproduced by the live reader too
+    if shard == 1:
+        g = dict(grammar_cases())
+        cases = [("grammar:" + k, g[k], False) for k in g if k.startswith(("trunc-big", "big-then"))] * 2 + cases
     if shard == 0:
         g = dict(grammar_cases())
         cases = [("grammar:" + k, g[k], False) for k in g if k.startswith(("bodylength='ab'", "checksum='abc'", "tag='ab'", "bodylength='-100'"))] + cases
@@ -537,8 +549,9 @@ def run_shard(spec, acc):
         f0 = lenient_fields(mal)
         bl0 = f0[1][1] if len(f0) > 1 and f0[1][0] == "9" else None
         if bl0 is not None and int_ok(bl0) and int(bl0) > 1500:
-            acc.add("live_skipped_claims_more_than_the_tail")   # unspecified zone: the frame claims more bytes than the tail has
-            continue
+            # (until repo fixes aeca204 / ad659c5 a frame that claims more bytes than the tail has was an unspecified zone; since then
+            #  the start of the next frame ends the wait, so these are judged like the rest)
+            acc.add("live_cases_claiming_more_bytes_than_follow")
         chunking = ["one", "two", "split", "many"][li % 4]
 
         async def go(clock):
